@@ -19,7 +19,7 @@ static const double LS = 1024.0;
 struct Scene {
     int mode, P, buf, opts;
     std::vector<std::vector<std::pair<int, int> > > shapes;
-    struct Conn { int sx, sy, sd, dx, dy, dd; };
+    struct Conn { int sx, sy, sd, dx, dy, dd; std::vector<std::pair<int, int> > cps; };
     std::vector<Conn> conns;
 };
 
@@ -30,7 +30,9 @@ static bool readScene(std::istream &in, Scene &s)
     s.shapes.assign(ns, {});
     for (auto &sh : s.shapes) { int kind, np; in >> kind >> np; sh.resize(np); for (auto &p : sh) in >> p.first >> p.second; }
     int nc; in >> nc; s.conns.resize(nc);
-    for (auto &c : s.conns) in >> c.sx >> c.sy >> c.sd >> c.dx >> c.dy >> c.dd;
+    for (auto &c : s.conns) { in >> c.sx >> c.sy >> c.sd >> c.dx >> c.dy >> c.dd; c.cps.clear(); }
+    int ncp; in >> ncp;          // checkpoints: (connector index, x, y), in visiting order per connector
+    for (int i = 0; i < ncp; i++) { int ci, x, y; in >> ci >> x >> y; s.conns.at(ci).cps.push_back(std::make_pair(x, y)); }
     return true;
 }
 
@@ -88,6 +90,11 @@ static Router *buildRouter(const Scene &s, std::vector<ConnRef *> &conns)
     for (auto &c : s.conns) {
         ConnEnd a(Point(c.sx, c.sy), (ConnDirFlags)c.sd), b(Point(c.dx, c.dy), (ConnDirFlags)c.dd);
         conns.push_back(new ConnRef(router, a, b));
+        if (!c.cps.empty()) {
+            std::vector<Checkpoint> cps;
+            for (auto &p : c.cps) cps.push_back(Checkpoint(Point(p.first, p.second)));
+            conns.back()->setRoutingCheckpoints(cps);
+        }
     }
     return router;
 }
@@ -114,6 +121,7 @@ static int scenesMode(const char *inFile, const char *outFile, const char *chunk
         for (size_t i = 0; i < s.conns.size(); i++) {
             const Scene::Conn &c = s.conns[i];
             j.obj().k("src").arr().i(c.sx).i(c.sy).end().k("dst").arr().i(c.dx).i(c.dy).end().k("sd").i(c.sd).k("dd").i(c.dd);
+            j.k("cps").arr(); for (auto &p : c.cps) j.arr().i(p.first).i(p.second).end(); j.end();
             if (!thrown) {
                 const PolyLine &raw = conns[i]->route();
                 PolyLine &disp = conns[i]->displayRoute();
